@@ -572,6 +572,13 @@ Proof.
   - exact HsepP.
 Qed.
 
+Lemma kinv_max rel k s g : kinv rel k s g -> c_state k = MMaximal ->
+  maxc (c_cur k) /\ NoDup (c_cur k).
+Proof.
+  intros (Hk & Hnd & Hc & Hcalls & HSs & HsepS & HPs & HsepP & Hst) Est. rewrite Est in Hst.
+  destruct Hst as (Bs0 & _ & Hmax & _). now split.
+Qed.
+
 Lemma maxc_base P : maxc P -> base P.
 Proof. intros [[H _] _]. exact H. Qed.
 
